@@ -1,17 +1,20 @@
 import TapkeeVerif.Model.LinearGraph
 import TapkeeVerif.Proofs.LinearGraph
 import TapkeeVerif.Proofs.LinearGraphFixed
+import TapkeeVerif.Proofs.LinearGraphPreFix
 /-!
 C10 property theorems: the feature-space generalised eigenproblem `(lhs, rhs)` built by NPE / LLTSA / LPP
 (`construct_neighborhood_preserving_eigenproblem`, `construct_lltsa_eigenproblem`,
 `construct_locality_preserving_eigenproblem`) and what `Eigen::GeneralizedSelfAdjointEigenSolver` reads of it.
 
 `F : Mat N D K` holds the samples as ROWS, so the property's `X M Xᵀ` is `Fᵀ M F = fullForm M F` and
-`X diag(w) Xᵀ` is `fullDiagForm w F`.  The code accumulates into the UPPER triangles, the solver reads the LOWER
-ones (`genSolveLower`): the needed statement `SolverSeesFull` is false of the code as it is (finding F-LIN-TRI,
-`solver_sees_XMXt_refuted`); the partial twins `solver_sees_diag*` say what the solver does see; `*_fixed` prove that
-the proposed patch (`fixes/F-LIN-TRI.diff` + `fixes/F-LLTSA-CENTRE.diff`) makes the full statement true.
-Helper lemmas: `Proofs/LinearGraph.lean`, `Proofs/LinearGraphFixed.lean`.
+`X diag(w) Xᵀ` is `fullDiagForm w F`.  The code accumulates into the UPPER triangles and (since the fix commits
+F-LIN-TRI, F-LLTSA-CENTRE) mirrors them before returning; the solver reads the LOWER triangles (`genSolveLower`).
+The needed statement `SolverSeesFull` is a theorem of the code as it is (`solver_sees_XMXt`).  The last section restates,
+for the routines as they were BEFORE the fixes (`LinearGraph.PreFix.*`, historical definitions kept in
+`Proofs/LinearGraphPreFix.lean`), the refutation of the same statement and what the solver saw then: regression
+witnesses, not statements about the tree.
+Helper lemmas: `Proofs/LinearGraph.lean`, `Proofs/LinearGraphFixed.lean` (rotation), `Proofs/LinearGraphPreFix.lean`.
 -/
 namespace TapkeeVerif.C10
 open TapkeeVerif TapkeeVerif.LinearGraph Matrix
@@ -31,70 +34,41 @@ theorem weight_loop_get (W : Mat N N K) (F : Mat N D K) (i j : Fin D) :
       = if i ≤ j then ∑ c, ∑ r, W r c * (F r i * F c j + F c i * F r j) else 0 :=
   weightSumD_get W F i j
 
-/-! ## 2. what the three routines return -/
+/-! ## 2. what the three routines return: the full forms, both triangles -/
 
-/-- NPE: on and above the diagonal `lhs = 2 · Fᵀ W F` (each stored entry contributes `v (x_r x_cᵀ + x_c x_rᵀ)`) -/
-theorem lhs_upper_eq {W : Mat N N K} (hW : ∀ r c, W r c = W c r) (F : Mat N D K) :
-    ∀ i j, i ≤ j → (npeProblem W F).1 i j = 2 * fullForm W F i j := by
-  intro i j h
-  rw [npe_lhs_get hW]
-  exact if_pos h
-
-/-- NPE: `lhs` is returned with its strictly lower triangle still zero -/
-theorem lhs_strict_lower_zero (W : Mat N N K) (F : Mat N D K) :
-    ∀ i j, j < i → (npeProblem W F).1 i j = 0 := by
-  intro i j h
-  rw [npeProblem_fst, weightSumD_get, if_neg (not_le.mpr h)]
+/-- NPE returns `(2 · Fᵀ W F, Fᵀ F)` (each stored entry contributes `v (x_r x_cᵀ + x_c x_rᵀ)`; upper triangle
+    accumulated, then mirrored) -/
+theorem npe_returns {W : Mat N N K} (hW : ∀ r c, W r c = W c r) (F : Mat N D K) :
+    npeProblem W F = (fun i j => 2 * fullForm W F i j, fullDiagForm (fun _ => 1) F) :=
+  LinearGraph.npe_returns hW F
 
 example : ∀ r c : Fin 2, refuteW r c = refuteW c r := refuteW_symm
 
-/-- NPE: the `rhs += rhsᵀ; rhs /= 2` lines HALVE the off-diagonal of `Fᵀ F`, because `rhs` was upper-only -/
-theorem npe_rhs_eq (W : Mat N N K) (F : Mat N D K) (h2 : (2 : K) ≠ 0) (i j : Fin D) :
-    (npeProblem W F).2 i j
-      = if i = j then fullDiagForm (fun _ => 1) F i i else fullDiagForm (fun _ => 1) F i j / 2 :=
-  npe_rhs_get W F h2 i j
+/-- NPE: on and above the diagonal `lhs = 2 · Fᵀ W F` -/
+theorem lhs_upper_eq {W : Mat N N K} (hW : ∀ r c, W r c = W c r) (F : Mat N D K) :
+    ∀ i j, i ≤ j → (npeProblem W F).1 i j = 2 * fullForm W F i j := by
+  intro i j _
+  rw [LinearGraph.npe_returns hW]
 
-example : (2 : ℚ) ≠ 0 := by decide
+/-- NPE: and the same value on and below the diagonal (the part the solver reads) -/
+theorem lhs_lower_eq {W : Mat N N K} (hW : ∀ r c, W r c = W c r) (F : Mat N D K) :
+    ∀ i j, j ≤ i → (npeProblem W F).1 i j = 2 * fullForm W F i j := by
+  intro i j _
+  rw [LinearGraph.npe_returns hW]
 
-/-- LPP: `lhs = 2 · Fᵀ L F` on and above the diagonal -/
-theorem lpp_lhs_upper_eq {L : Mat N N K} (hL : ∀ r c, L r c = L c r) (Dg : Vec N K) (F : Mat N D K) :
-    ∀ i j, i ≤ j → (lppProblem L Dg F).1 i j = 2 * fullForm L F i j := by
-  intro i j h
-  rw [lpp_lhs_get hL]
-  exact if_pos h
+/-- NPE: `rhs = Fᵀ F` on and above the diagonal (any `W`) -/
+theorem rhs_upper_eq (W : Mat N N K) (F : Mat N D K) :
+    ∀ i j, i ≤ j → (npeProblem W F).2 i j = fullDiagForm (fun _ => 1) F i j := by
+  intro i j _
+  show (mirrorUpperD (sampleSumD F fun _ => 1)).get i j = _
+  rw [mirror_sampleSum]
 
-theorem lpp_lhs_strict_lower_zero (L : Mat N N K) (Dg : Vec N K) (F : Mat N D K) :
-    ∀ i j, j < i → (lppProblem L Dg F).1 i j = 0 := by
-  intro i j h
-  rw [lppProblem_fst, weightSumD_get, if_neg (not_le.mpr h)]
-
-/-- LPP: `rhs = Fᵀ diag(Dg) F` on and above the diagonal -/
-theorem lpp_rhs_upper_eq (L : Mat N N K) (Dg : Vec N K) (F : Mat N D K) :
-    ∀ i j, i ≤ j → (lppProblem L Dg F).2 i j = fullDiagForm Dg F i j := by
-  intro i j h
-  rw [lpp_rhs_get]
-  exact if_pos h
-
-theorem lpp_rhs_strict_lower_zero (L : Mat N N K) (Dg : Vec N K) (F : Mat N D K) :
-    ∀ i j, j < i → (lppProblem L Dg F).2 i j = 0 := by
-  intro i j h
-  rw [lpp_rhs_get]
-  exact if_neg (not_le.mpr h)
-
-/-- LLTSA: what the code computes on and above the diagonal is `2 Fᵀ W F − s sᵀ / N` (`s` = sum of the samples);
-    the extra `− s sᵀ / N` term is finding F-LLTSA-CENTRE -/
-theorem lltsa_lhs_upper_eq {W : Mat N N K} (hW : ∀ r c, W r c = W c r) (F : Mat N D K) :
-    ∀ i j, i ≤ j →
-      (lltsaProblem W F).1 i j = 2 * fullForm W F i j - featureSum F i * featureSum F j / (N : K) := by
-  intro i j h
-  rw [lltsa_lhs_get hW]
-  exact if_pos h
-
-theorem lltsa_lhs_strict_lower_zero {W : Mat N N K} (hW : ∀ r c, W r c = W c r) (F : Mat N D K) :
-    ∀ i j, j < i → (lltsaProblem W F).1 i j = 0 := by
-  intro i j h
-  rw [lltsa_lhs_get hW]
-  exact if_neg (not_le.mpr h)
+/-- NPE: and on and below the diagonal — no halving any more -/
+theorem rhs_lower_eq (W : Mat N N K) (F : Mat N D K) :
+    ∀ i j, j ≤ i → (npeProblem W F).2 i j = fullDiagForm (fun _ => 1) F i j := by
+  intro i j _
+  show (mirrorUpperD (sampleSumD F fun _ => 1)).get i j = _
+  rw [mirror_sampleSum]
 
 /-- `Fᵀ (1 − 11ᵀ/N) F = Fᵀ F − s sᵀ / N` (no hypothesis on `N`: for `N = 0` both sides are `0`) -/
 theorem fullForm_centering (F : Mat N D K) (i j : Fin D) :
@@ -102,14 +76,17 @@ theorem fullForm_centering (F : Mat N D K) (i j : Fin D) :
       = fullDiagForm (fun _ => 1) F i j - featureSum F i * featureSum F j / (N : K) :=
   LinearGraph.fullForm_centering F i j
 
-/-- LLTSA: `rhs` is the centred second-moment matrix `Fᵀ H F` with its off-diagonal HALVED -/
-theorem lltsa_rhs_eq (W : Mat N N K) (F : Mat N D K) (h2 : (2 : K) ≠ 0) (i j : Fin D) :
-    (lltsaProblem W F).2 i j
-      = if i = j then fullForm centering F i i else fullForm centering F i j / 2 := by
-  rw [fullForm_centering, fullForm_centering]
-  exact lltsa_rhs_get W F h2 i j
+/-- LLTSA returns `(2 · Fᵀ W F, Fᵀ H F)`, `H = 1 − 11ᵀ/N` (no hypothesis on `N`) -/
+theorem lltsa_returns {W : Mat N N K} (hW : ∀ r c, W r c = W c r) (F : Mat N D K) :
+    lltsaProblem W F = (fun i j => 2 * fullForm W F i j, fullForm centering F) :=
+  LinearGraph.lltsa_returns hW F
 
-/-! ## 3. the needed statement, its refutation, and its partial twins -/
+/-- LPP returns `(2 · Fᵀ L F, Fᵀ diag(Dg) F)` -/
+theorem lpp_returns {L : Mat N N K} (hL : ∀ r c, L r c = L c r) (Dg : Vec N K) (F : Mat N D K) :
+    lppProblem L Dg F = (fun i j => 2 * fullForm L F i j, fullDiagForm Dg F) :=
+  LinearGraph.lpp_returns hL Dg F
+
+/-! ## 3. the needed statement: the solver works with `c · X M Xᵀ` and `c' · X B Xᵀ` -/
 
 /-- THE NEEDED STATEMENT (full strength): the generalised solver works with `c · X M Xᵀ` and `c' · X Xᵀ`. -/
 def SolverSeesFull : Prop :=
@@ -118,122 +95,31 @@ def SolverSeesFull : Prop :=
       (genSolveLower (npeProblem W F)).1 = (fun i j => c * fullForm W F i j) ∧
       (genSolveLower (npeProblem W F)).2 = fun i j => c' * fullDiagForm (fun _ => 1) F i j
 
-/-- PARTIAL twin of `SolverSeesFull` (what is true of the code as it is), left-hand side: the solver sees only the
-    DIAGONAL of `2 · Fᵀ W F`. -/
-theorem solver_sees_diag {W : Mat N N K} (hW : ∀ r c, W r c = W c r) (F : Mat N D K) (i j : Fin D) :
-    (genSolveLower (npeProblem W F)).1 i j = if i = j then 2 * fullForm W F i i else 0 := by
-  show Mat.lowerView (npeProblem W F).1 i j = _
-  rw [npe_lhs_get hW]
-  exact lowerView_upperOnly _ i j
+/-- NPE, any field: the solver sees `2 · Fᵀ W F` and `Fᵀ F`, all entries -/
+theorem solver_sees_XMXt_npe {W : Mat N N K} (hW : ∀ r c, W r c = W c r) (F : Mat N D K) :
+    genSolveLower (npeProblem W F) = (fun i j => 2 * fullForm W F i j, fullDiagForm (fun _ => 1) F) :=
+  genSolveLower_npe hW F
 
-/-- PARTIAL twin of `SolverSeesFull`, right-hand side: `Fᵀ F` with its off-diagonal halved. -/
-theorem solver_sees_diag_rhs (W : Mat N N K) (F : Mat N D K) (h2 : (2 : K) ≠ 0) (i j : Fin D) :
-    (genSolveLower (npeProblem W F)).2 i j
-      = if i = j then fullDiagForm (fun _ => 1) F i i else fullDiagForm (fun _ => 1) F i j / 2 := by
-  show Mat.lowerView (npeProblem W F).2 i j = _
-  rw [lowerView_of_symm _ (npe_rhs_symm W F)]
-  exact npe_rhs_get W F h2 i j
+/-- LLTSA, any field: the solver sees `2 · Fᵀ W F` and the centred `Fᵀ H F` -/
+theorem solver_sees_XMXt_lltsa {W : Mat N N K} (hW : ∀ r c, W r c = W c r) (F : Mat N D K) :
+    genSolveLower (lltsaProblem W F) = (fun i j => 2 * fullForm W F i j, fullForm centering F) :=
+  genSolveLower_lltsa hW F
 
-/-- LPP, partial twin: BOTH matrices the solver sees are diagonal. -/
-theorem lpp_solver_sees_diag {L : Mat N N K} (hL : ∀ r c, L r c = L c r) (Dg : Vec N K) (F : Mat N D K)
-    (i j : Fin D) :
-    (genSolveLower (lppProblem L Dg F)).1 i j = (if i = j then 2 * fullForm L F i i else 0) ∧
-    (genSolveLower (lppProblem L Dg F)).2 i j = (if i = j then fullDiagForm Dg F i i else 0) := by
-  constructor
-  · show Mat.lowerView (lppProblem L Dg F).1 i j = _
-    rw [lpp_lhs_get hL]
-    exact lowerView_upperOnly _ i j
-  · show Mat.lowerView (lppProblem L Dg F).2 i j = _
-    rw [lpp_rhs_get]
-    exact lowerView_upperOnly _ i j
+/-- LPP, any field: the solver sees `2 · Fᵀ L F` and `Fᵀ diag(Dg) F` -/
+theorem solver_sees_XMXt_lpp {L : Mat N N K} (hL : ∀ r c, L r c = L c r) (Dg : Vec N K) (F : Mat N D K) :
+    genSolveLower (lppProblem L Dg F) = (fun i j => 2 * fullForm L F i j, fullDiagForm Dg F) :=
+  genSolveLower_lpp hL Dg F
 
-/-- LLTSA, partial twin: the diagonal of `2 Fᵀ W F − s sᵀ/N` against `Fᵀ H F` with halved off-diagonal. -/
-theorem lltsa_solver_sees {W : Mat N N K} (hW : ∀ r c, W r c = W c r) (F : Mat N D K) (h2 : (2 : K) ≠ 0)
-    (i j : Fin D) :
-    (genSolveLower (lltsaProblem W F)).1 i j
-        = (if i = j then 2 * fullForm W F i i - featureSum F i * featureSum F i / (N : K) else 0) ∧
-    (genSolveLower (lltsaProblem W F)).2 i j
-        = (if i = j then fullForm centering F i i else fullForm centering F i j / 2) := by
-  constructor
-  · show Mat.lowerView (lltsaProblem W F).1 i j = _
-    rw [lltsa_lhs_get hW]
-    exact lowerView_upperOnly _ i j
-  · show Mat.lowerView (lltsaProblem W F).2 i j = _
-    rw [lowerView_of_symm _ (lltsa_rhs_symm W F)]
-    exact lltsa_rhs_eq W F h2 i j
-
-/-- F-LIN-TRI: the needed statement is FALSE of the code as it is.  Witness: the two samples `(1,0)`, `(1,1)`,
-    `W = 1`: `Fᵀ W F = [[2,1],[1,1]]` but the solver sees `diag(4, 2)`. -/
-theorem solver_sees_XMXt_refuted : ¬ SolverSeesFull := by
-  intro h
-  obtain ⟨c, c', hc, -, h1, -⟩ := h 2 2 refuteW refuteF refuteW_symm
-  have e := congrFun (congrFun h1 0) 1
-  rw [solver_sees_diag refuteW_symm, if_neg (by decide), refute_fullForm_01, mul_one] at e
-  exact hc e.symm
-
-/-! ## 4. the patched routines (`fixes/F-LIN-TRI.diff` + `fixes/F-LLTSA-CENTRE.diff`): the full statement holds -/
-
-/-- NPE after the patch: the solver sees `2 · Fᵀ W F` and `Fᵀ F`, all entries (`c = 2`, `c' = 1`). -/
-theorem solver_sees_XMXt_fixed {W : Mat N N K} (hW : ∀ r c, W r c = W c r) (F : Mat N D K) :
-    Mat.lowerView (npeProblemFixedD W F).1.get = (fun i j => 2 * fullForm W F i j) ∧
-    Mat.lowerView (npeProblemFixedD W F).2.get = fullDiagForm (fun _ => 1) F := by
-  obtain ⟨h1, h2⟩ := npeFixed_get hW F
-  rw [h1, h2]
-  exact ⟨lowerView_of_symm _ (two_fullForm_symm hW F), lowerView_of_symm _ (fullDiagForm_symm _ F)⟩
-
-/-- NPE after the patch: the returned matrices ARE the full forms (both triangles), whatever triangle is read. -/
-theorem npe_fixed_returns {W : Mat N N K} (hW : ∀ r c, W r c = W c r) (F : Mat N D K) :
-    (npeProblemFixedD W F).1.get = (fun i j => 2 * fullForm W F i j) ∧
-    (npeProblemFixedD W F).2.get = fullDiagForm (fun _ => 1) F :=
-  npeFixed_get hW F
-
-/-- `SolverSeesFull` with the patched routine in place of `npeProblem`. -/
-def SolverSeesFullFixed : Prop :=
-  ∀ (N D : Nat) (W : Mat N N ℚ) (F : Mat N D ℚ), (∀ r c, W r c = W c r) →
-    ∃ c c' : ℚ, c ≠ 0 ∧ c' ≠ 0 ∧
-      (genSolveLower ((npeProblemFixedD W F).1.get, (npeProblemFixedD W F).2.get)).1
-        = (fun i j => c * fullForm W F i j) ∧
-      (genSolveLower ((npeProblemFixedD W F).1.get, (npeProblemFixedD W F).2.get)).2
-        = fun i j => c' * fullDiagForm (fun _ => 1) F i j
-
-/-- the proposed patch makes the needed statement TRUE (`c = 2`, `c' = 1`) -/
-theorem solver_sees_full_fixed : SolverSeesFullFixed := by
+/-- the needed statement holds of the code as it is (`c = 2`, `c' = 1`) -/
+theorem solver_sees_XMXt : SolverSeesFull := by
   intro N D W F hW
-  obtain ⟨h1, h2⟩ := solver_sees_XMXt_fixed hW F
-  refine ⟨2, 1, by decide, by decide, h1, ?_⟩
-  show Mat.lowerView (npeProblemFixedD W F).2.get = _
-  rw [h2]
-  funext i j
-  rw [one_mul]
+  refine ⟨2, 1, by decide, by decide, ?_, ?_⟩
+  · rw [solver_sees_XMXt_npe hW]
+  · rw [solver_sees_XMXt_npe hW]
+    funext i j
+    exact (one_mul _).symm
 
-/-- LLTSA after both patches: the solver sees `2 · Fᵀ W F` and the centred `Fᵀ H F`
-    (no hypothesis on `N` is needed: for `N = 0` everything is `0`). -/
-theorem lltsa_solver_sees_fixed {W : Mat N N K} (hW : ∀ r c, W r c = W c r) (F : Mat N D K) :
-    Mat.lowerView (lltsaProblemFixedD W F).1.get = (fun i j => 2 * fullForm W F i j) ∧
-    Mat.lowerView (lltsaProblemFixedD W F).2.get = fullForm centering F := by
-  obtain ⟨h1, h2⟩ := lltsaFixed_get hW F
-  rw [h1, h2]
-  exact ⟨lowerView_of_symm _ (two_fullForm_symm hW F), lowerView_of_symm _ (fullForm_centering_symm F)⟩
-
-theorem lltsa_fixed_returns {W : Mat N N K} (hW : ∀ r c, W r c = W c r) (F : Mat N D K) :
-    (lltsaProblemFixedD W F).1.get = (fun i j => 2 * fullForm W F i j) ∧
-    (lltsaProblemFixedD W F).2.get = fullForm centering F :=
-  lltsaFixed_get hW F
-
-/-- LPP after the patch: the solver sees `2 · Fᵀ L F` and `Fᵀ diag(Dg) F`. -/
-theorem lpp_solver_sees_fixed {L : Mat N N K} (hL : ∀ r c, L r c = L c r) (Dg : Vec N K) (F : Mat N D K) :
-    Mat.lowerView (lppProblemFixedD L Dg F).1.get = (fun i j => 2 * fullForm L F i j) ∧
-    Mat.lowerView (lppProblemFixedD L Dg F).2.get = fullDiagForm Dg F := by
-  obtain ⟨h1, h2⟩ := lppFixed_get hL Dg F
-  rw [h1, h2]
-  exact ⟨lowerView_of_symm _ (two_fullForm_symm hL F), lowerView_of_symm _ (fullDiagForm_symm _ F)⟩
-
-theorem lpp_fixed_returns {L : Mat N N K} (hL : ∀ r c, L r c = L c r) (Dg : Vec N K) (F : Mat N D K) :
-    (lppProblemFixedD L Dg F).1.get = (fun i j => 2 * fullForm L F i j) ∧
-    (lppProblemFixedD L Dg F).2.get = fullDiagForm Dg F :=
-  lppFixed_get hL Dg F
-
-/-! ## 5. rotation algebra.  `rotateRows R F = F Rᵀ` (model-level `Mat.mul F (Mat.transpose R)`) is the sample
+/-! ## 4. rotation algebra.  `rotateRows R F = F Rᵀ` (model-level `Mat.mul F (Mat.transpose R)`) is the sample
 matrix after `x ↦ R x`; `Mat.toM` views a model matrix as a Mathlib `Matrix` (the identity). -/
 
 /-- `rotateRows R F` applies `x ↦ R x` to every sample -/
@@ -270,36 +156,25 @@ theorem project_rotate {d : Nat} (P : Mat D d K) (F : Mat N D K) (R : Mat D D K)
     project (Mat.mul R P) (rotateRows R F) = project P F :=
   project_rotate_eq P F R hR
 
-/-- the NEGATIVE fact behind the metamorphic failure on the current tree: taking the diagonal (what the solver sees of
-    `lhs`, `solver_sees_diag`) does not commute with rotation.  Witness: the 3-4-5 rotation and `diag(1, 2)`. -/
+/-- the solver's view IS rotation-equivariant (any `R`, any symmetric `W`): both matrices transform as
+    `A ↦ R A Rᵀ` under `x ↦ R x`. -/
+theorem npe_view_rotation_equivariant {W : Mat N N K} (hW : ∀ r c, W r c = W c r) (F : Mat N D K)
+    (R : Mat D D K) :
+    Mat.toM (genSolveLower (npeProblem W (rotateRows R F))).1
+        = Mat.toM R * Mat.toM (genSolveLower (npeProblem W F)).1 * (Mat.toM R)ᵀ ∧
+    Mat.toM (genSolveLower (npeProblem W (rotateRows R F))).2
+        = Mat.toM R * Mat.toM (genSolveLower (npeProblem W F)).2 * (Mat.toM R)ᵀ := by
+  rw [solver_sees_XMXt_npe hW, solver_sees_XMXt_npe hW]
+  exact ⟨two_fullForm_rotate_toM W F R, fullDiagForm_rotate_toM _ F R⟩
+
+/-- why a solver that sees only the diagonal of `lhs` (the pre-fix state, `prefix_solver_sees_diag`) failed the rotation
+    metamorphism: taking the diagonal does not commute with rotation.  Witness: the 3-4-5 rotation and `diag(1, 2)`. -/
 theorem diag_solver_not_rotation_equivariant :
     ∃ (A R : Matrix (Fin 2) (Fin 2) ℚ), Rᵀ * R = 1 ∧
       Matrix.diagonal (fun i => (R * A * Rᵀ) i i) ≠ R * Matrix.diagonal (fun i => A i i) * Rᵀ :=
   ⟨Mat.toM diag12, Mat.toM rot345, rot345_orth, rot345_diag_ne⟩
 
-/-- model-level form of the metamorphic failure (code as it is): there are symmetric `W`, samples `F` and an orthogonal
-    `R` for which what the solver sees of `lhs` after `x ↦ R x` is NOT `R (what it saw before) Rᵀ`.
-    Witness: samples `(1,0)`, `(0,2)`, `W = 1`, the 3-4-5 rotation. -/
-theorem npe_solver_view_not_rotation_equivariant :
-    ∃ (W F R : Mat 2 2 ℚ), (∀ r c, W r c = W c r) ∧ (Mat.toM R)ᵀ * Mat.toM R = 1 ∧
-      Mat.toM (genSolveLower (npeProblem W (rotateRows R F))).1
-        ≠ Mat.toM R * Mat.toM (genSolveLower (npeProblem W F)).1 * (Mat.toM R)ᵀ :=
-  ⟨refuteW, diag12, rot345, refuteW_symm, rot345_orth, npe_view_not_equivariant_witness⟩
-
-/-- after the patch the solver's view IS rotation-equivariant (any `R`, any symmetric `W`): both matrices transform as
-    `A ↦ R A Rᵀ` under `x ↦ R x`. -/
-theorem npe_fixed_view_rotation_equivariant {W : Mat N N K} (hW : ∀ r c, W r c = W c r) (F : Mat N D K)
-    (R : Mat D D K) :
-    Mat.toM (Mat.lowerView (npeProblemFixedD W (rotateRows R F)).1.get)
-        = Mat.toM R * Mat.toM (Mat.lowerView (npeProblemFixedD W F).1.get) * (Mat.toM R)ᵀ ∧
-    Mat.toM (Mat.lowerView (npeProblemFixedD W (rotateRows R F)).2.get)
-        = Mat.toM R * Mat.toM (Mat.lowerView (npeProblemFixedD W F).2.get) * (Mat.toM R)ᵀ := by
-  obtain ⟨h1, h2⟩ := solver_sees_XMXt_fixed hW F
-  obtain ⟨h1', h2'⟩ := solver_sees_XMXt_fixed hW (rotateRows R F)
-  rw [h1, h2, h1', h2']
-  exact ⟨two_fullForm_rotate_toM W F R, fullDiagForm_rotate_toM _ F R⟩
-
-/-! ## 6. non-vacuity: concrete instances of the hypotheses, and both routines on the refutation witness -/
+/-! ## 5. non-vacuity: concrete instances of the hypotheses -/
 
 /-- a symmetric, non-diagonal weight matrix (`W r c = r + c`) -/
 example : ∀ r c : Fin 3, (fun r c : Fin 3 => ((r.1 + c.1 : Nat) : ℚ)) r c
@@ -310,15 +185,77 @@ example : ∀ r c : Fin 3, (fun r c : Fin 3 => ((r.1 + c.1 : Nat) : ℚ)) r c
 /-- the 3-4-5 rotation is orthogonal and is not a signed permutation -/
 example : (Mat.toM rot345)ᵀ * Mat.toM rot345 = 1 ∧ rot345 0 0 = 3 / 5 := ⟨rot345_orth, rfl⟩
 
-/-- on the witness of `solver_sees_XMXt_refuted` (`Fᵀ W F = [[2,1],[1,1]]`) the current routine shows the solver `0` at
-    `(0,1)`, the patched one `2 = 2 · 1` -/
-example : (genSolveLower (npeProblem refuteW refuteF)).1 0 1 = 0 ∧
-    Mat.lowerView (npeProblemFixedD refuteW refuteF).1.get 0 1 = 2 := by
+/-! ## 6. regression witnesses (pre-fix code, `Proofs/LinearGraphPreFix.lean`)
+
+`PreFix.npeProblem`, `PreFix.lltsaProblem`, `PreFix.lppProblem` are the three routines as they read before the fix
+commits F-LIN-TRI / F-LLTSA-CENTRE (historical definitions, verbatim).  What follows is what the code computed THEN. -/
+
+/-- `SolverSeesFull` for the pre-fix routine was FALSE.  Witness (`D = 2`): the two samples `(1,0)`, `(1,1)`, `W = 1`:
+    `Fᵀ W F = [[2,1],[1,1]]` but the solver saw `diag(4, 2)`. -/
+theorem prefix_solver_sees_XMXt_refuted : ¬ PreFix.SolverSeesFull :=
+  PreFix.solverSeesFull_refuted
+
+/-- pre-fix NPE: `lhs` was returned with its strictly lower triangle zero -/
+theorem prefix_lhs_strict_lower_zero (W : Mat N N K) (F : Mat N D K) :
+    ∀ i j, j < i → (PreFix.npeProblem W F).1 i j = 0 :=
+  fun i j h => PreFix.npe_lhs_strict_lower_zero W F i j h
+
+/-- pre-fix NPE: the solver saw only the DIAGONAL of `2 · Fᵀ W F` -/
+theorem prefix_solver_sees_diag {W : Mat N N K} (hW : ∀ r c, W r c = W c r) (F : Mat N D K) (i j : Fin D) :
+    (genSolveLower (PreFix.npeProblem W F)).1 i j = if i = j then 2 * fullForm W F i i else 0 := by
+  rw [PreFix.genSolveLower_npe_fst hW]
+
+/-- pre-fix NPE: the `rhs += rhsᵀ; rhs /= 2` lines HALVED the off-diagonal of `Fᵀ F` (`rhs` was upper-only) -/
+theorem prefix_solver_sees_diag_rhs (W : Mat N N K) (F : Mat N D K) (h2 : (2 : K) ≠ 0) (i j : Fin D) :
+    (genSolveLower (PreFix.npeProblem W F)).2 i j
+      = if i = j then fullDiagForm (fun _ => 1) F i i else fullDiagForm (fun _ => 1) F i j / 2 :=
+  PreFix.genSolveLower_npe_snd W F h2 i j
+
+example : (2 : ℚ) ≠ 0 := by decide
+
+/-- pre-fix LPP: BOTH matrices the solver saw were diagonal -/
+theorem prefix_lpp_solver_sees_diag {L : Mat N N K} (hL : ∀ r c, L r c = L c r) (Dg : Vec N K) (F : Mat N D K)
+    (i j : Fin D) :
+    (genSolveLower (PreFix.lppProblem L Dg F)).1 i j = (if i = j then 2 * fullForm L F i i else 0) ∧
+    (genSolveLower (PreFix.lppProblem L Dg F)).2 i j = (if i = j then fullDiagForm Dg F i i else 0) :=
+  PreFix.genSolveLower_lpp hL Dg F i j
+
+/-- pre-fix LLTSA (F-LLTSA-CENTRE): on and above the diagonal `lhs` was `2 Fᵀ W F − s sᵀ / N` (`s` = sum of the samples),
+    not `2 Fᵀ W F` -/
+theorem prefix_lltsa_lhs_upper_eq {W : Mat N N K} (hW : ∀ r c, W r c = W c r) (F : Mat N D K) :
+    ∀ i j, i ≤ j →
+      (PreFix.lltsaProblem W F).1 i j = 2 * fullForm W F i j - featureSum F i * featureSum F j / (N : K) := by
+  intro i j h
+  rw [PreFix.lltsa_lhs_get hW]
+  exact if_pos h
+
+/-- pre-fix LLTSA: the diagonal of `2 Fᵀ W F − s sᵀ/N` against `Fᵀ H F` with halved off-diagonal -/
+theorem prefix_lltsa_solver_sees {W : Mat N N K} (hW : ∀ r c, W r c = W c r) (F : Mat N D K) (h2 : (2 : K) ≠ 0)
+    (i j : Fin D) :
+    (genSolveLower (PreFix.lltsaProblem W F)).1 i j
+        = (if i = j then 2 * fullForm W F i i - featureSum F i * featureSum F i / (N : K) else 0) ∧
+    (genSolveLower (PreFix.lltsaProblem W F)).2 i j
+        = (if i = j then fullForm centering F i i else fullForm centering F i j / 2) :=
+  PreFix.genSolveLower_lltsa hW F h2 i j
+
+/-- model-level form of the metamorphic failure of the pre-fix code: there are symmetric `W`, samples `F` and an
+    orthogonal `R` for which what the solver saw of `lhs` after `x ↦ R x` was NOT `R (what it saw before) Rᵀ`
+    (contrast `npe_view_rotation_equivariant`).  Witness: samples `(1,0)`, `(0,2)`, `W = 1`, the 3-4-5 rotation. -/
+theorem prefix_npe_solver_view_not_rotation_equivariant :
+    ∃ (W F R : Mat 2 2 ℚ), (∀ r c, W r c = W c r) ∧ (Mat.toM R)ᵀ * Mat.toM R = 1 ∧
+      Mat.toM (genSolveLower (PreFix.npeProblem W (rotateRows R F))).1
+        ≠ Mat.toM R * Mat.toM (genSolveLower (PreFix.npeProblem W F)).1 * (Mat.toM R)ᵀ :=
+  ⟨refuteW, diag12, rot345, refuteW_symm, rot345_orth, PreFix.npe_view_not_equivariant_witness⟩
+
+/-- on the witness of `prefix_solver_sees_XMXt_refuted` (`Fᵀ W F = [[2,1],[1,1]]`) the current routine shows the solver
+    `2 = 2 · 1` at `(0,1)`, the pre-fix one showed `0` -/
+example : (genSolveLower (npeProblem refuteW refuteF)).1 0 1 = 2 ∧
+    (genSolveLower (PreFix.npeProblem refuteW refuteF)).1 0 1 = 0 := by
   constructor
-  · rw [solver_sees_diag refuteW_symm, if_neg (by decide)]
-  · rw [(solver_sees_XMXt_fixed refuteW_symm refuteF).1]
+  · rw [solver_sees_XMXt_npe refuteW_symm]
     show 2 * fullForm refuteW refuteF 0 1 = 2
     rw [refute_fullForm_01, mul_one]
+  · rw [prefix_solver_sees_diag refuteW_symm, if_neg (by decide)]
 
 -- SPECTRAL THEOREMS (appended by the spectral owner)
 
